@@ -13,7 +13,7 @@ func (a *AbsentOverTimePlanner) Process(ctx *shared.PlannerContext,
 	return a.process(ctx, in, aggregatorPlannerOps{
 		addValue: func(ctx *shared.PlannerContext, entry *shared.LogEntry, stream *aggOpStream) {
 			idx := (entry.TimestampNS - ctx.From.UnixNano()) / a.Duration.Nanoseconds() * 2
-			if idx > 0 && idx < int64(len(stream.values)) {
+			if idx >= 0 && idx < int64(len(stream.values)) {
 				stream.values[idx] = 0
 				stream.values[idx+1] = 0
 			}
